@@ -27,7 +27,8 @@ from yamlpath.enums import PathSegmentTypes
 PROPERTY = "C06"
 LEVEL = "exploration"
 RULE = ("pairs (L, R): identical, R = L after 1-5 random insert/delete/replace/reorder edits (also key reorder, type "
-        "clashes, nulls as elements and values, empty containers), and unrelated pairs; x array modes {position, value} "
+        "clashes, nulls as elements and values, empty containers, anchors added to / removed from scalars, Boolean <-> 0/1), "
+        "and unrelated pairs; a quarter of the comparisons are the second compare_to() of one Differ object; x array modes {position, value} "
         "x Array-of-Hashes modes {position, dpos, value, key, deep} (key/deep only when every list member is a hash); "
         "hash seeds 0-7 in the thorough tier. Non-trivial = both documents are containers with >=2 nodes; distinct by "
         "(L text, R text, modes)")
@@ -37,7 +38,8 @@ ASSUMPTIONS = ["mapping key order is not data; sequence order is data except whe
 REACH = [("yamlpath/differ/differ.py", "_diff_between,_diff_dicts,_diff_lists,_diff_sets,_diff_scalars,_diff_arrays_of_scalars,_diff_arrays_of_hashes,_diff_synced_lists,synchronize_lists_by_value,synchronize_lods_by_key,_purge_document,_add_everything", "Differ._diff_* / synchronize_*"),
          ("yamlpath/differ/differconfig.py", "array_diff_mode,aoh_diff_mode,aoh_diff_key", "DifferConfig modes")]
 SIZES = {"quick": 150000, "thorough": 3000000}
-REQUIRED_COUNTERS = ["truth_checked", "iff_checked", "conservation_checked", "reflexive_checked"]
+REQUIRED_COUNTERS = ["truth_checked", "iff_checked", "conservation_checked", "reflexive_checked", "reused_differ_cases",
+                     "pairs_with_anchored_scalars"]
 ARR = ["position", "value"]
 AOH = ["position", "dpos", "value", "key", "deep"]
 
@@ -52,6 +54,9 @@ def gen_tree(rng, depth=0, want=None):
     if want is None:
         want = "scalar" if depth >= 3 or (depth > 0 and x < 0.45) else rng.choice(["map", "map", "seq", "aoh", "seq", "set"])
     if want == "scalar":
+        if rng.random() < 0.12:
+            # an anchor is not data; ruamel gives an anchored scalar another python type (ScalarBoolean, ScalarInt..)
+            return ("anc", "A%d" % rng.randrange(10 ** 6), ("s", rng.choice(["true", "false", "1", "0", "1.5", "a", "''"])))
         return ("s", rng.choice(SC))
     n = rng.randrange(0, 4)
     if want == "map":
@@ -132,6 +137,14 @@ def edit_tree(rng, t):
             return ("seq", items)
         if n[0] == "set":
             return ("set", rng.sample(["p", "q", "r", "s"], rng.randrange(1, 3)))
+        if n[0] == "anc" and op < 0.5:
+            return n[2]                      # same data without the anchor
+        if n[0] == "s" and op < 0.15 and n[1] != "null":
+            return ("anc", "B%d" % rng.randrange(10 ** 6), n)    # same data, now anchored
+        if n[0] == "s" and n[1] in ("true", "false", "1", "0") and op < 0.3:
+            return ("s", {"true": "1", "1": "true", "false": "0", "0": "false"}[n[1]])    # Boolean <-> number
+        if n[0] == "anc" and n[2][1] in ("true", "false", "1", "0") and op < 0.75:
+            return ("s", {"true": "1", "1": "true", "false": "0", "0": "false"}[n[2][1]])
         return ("s", rng.choice(SC)) if op < 0.8 else gen_tree(rng, 2)
     return replace_at(t, path, fn)
 
@@ -314,12 +327,18 @@ def keyable(l, r):
     return True
 
 
-def check_pair(ctx, ltext, rtext, arr, aoh):
+def check_pair(ctx, ltext, rtext, arr, aoh, earlier_rhs=None):
+    """earlier_rhs: a document the same Differ object was first asked to compare its left document to (a Differ
+    is bound to its left document; every compare_to() must report on that call's pair only)."""
     try:
         L, R = yp.load(ltext), yp.load(rtext)
+        E0 = yp.load(earlier_rhs) if earlier_rhs is not None else None
     except yp.LoadError:
         return
-    case = {"lhs": ltext, "rhs": rtext, "arrays": arr, "aoh": aoh}
+    case = {"lhs": ltext, "rhs": rtext, "arrays": arr, "aoh": aoh, "earlier_rhs": earlier_rhs}
+    if earlier_rhs is not None and aoh in ("key", "deep") and not (homogeneous_lists(E0) and keyable(L, E0)):
+        earlier_rhs = E0 = None
+        case["earlier_rhs"] = None
     if aoh in ("key", "deep") and not (homogeneous_lists(L) and homogeneous_lists(R) and keyable(L, R)):
         ctx.count("key_mode_not_applicable_skipped")
         return
@@ -328,10 +347,16 @@ def check_pair(ctx, ltext, rtext, arr, aoh):
         return
     if L is None or R is None:
         return
+    if "&" in ltext or "&" in rtext:
+        ctx.count("pairs_with_anchored_scalars")
     cfg = DifferConfig(LOG, SimpleNamespace(arrays=arr, aoh=aoh))
     ctx.evaluations += 1
     try:
         d = Differ(cfg, LOG, L)
+        if E0 is not None:
+            d.compare_to(E0)
+            list(d.get_report())
+            ctx.count("reused_differ_cases")
         d.compare_to(R)
         entries = list(d.get_report())
     except Exception as e:
@@ -480,7 +505,8 @@ def conservation(ctx, case, L, R, entries, arr, aoh):
 SEEDS = [("[a, null]", "[a, null]"), ("[1, 2]", "[]"), ("{a: {}}", "{a: []}"), ("[{a: 1}]", "[{a: 1}]"),
          ("[1, 2, 3]", "[3, 1, 2]"), ("{a: 1, b: 2}", "{b: 2, a: 1}"), ("[{id: 1, a: x}, {id: 2, a: y}]", "[{id: 2, a: y}, {id: 1, a: z}]"),
          ("{a: null}", "{a: null}"), ("{a: [1, null, 2]}", "{a: [1, 2]}"), ("[]", "[1]"), ("{a: 1}", "[1]"),
-         ("[{a: 1, b: 2}]", "[{b: 2, a: 1}]")]
+         ("[{a: 1, b: 2}]", "[{b: 2, a: 1}]"), ("{f: &on true}", "{f: 1}"), ("{f: &on true}", "{f: true}"),
+         ("[&x 1, a]", "[1, a]"), ("[&x true]", "[1]"), ("{a: [&q false, 0]}", "{a: [0, false]}")]
 
 
 def run_shard(ctx):
@@ -509,7 +535,13 @@ def run_shard(ctx):
         for _ in range(3):
             arr = rng.choice(ARR)
             aoh = rng.choice(AOH)
-            check_pair(ctx, ltext, rtext, arr, aoh)
+            earlier = None
+            if rng.random() < 0.25:
+                t0 = t
+                for _e in range(rng.randrange(1, 4)):
+                    t0 = edit_tree(rng, t0)
+                earlier = gd.render(t0)
+            check_pair(ctx, ltext, rtext, arr, aoh, earlier)
         if t2 is t:
             ctx.counters["reflexive_checked"] = ctx.counters.get("reflexive_checked", 0) + 1
         n += 1
@@ -545,7 +577,7 @@ def replay(w):
         def violation(self, m, w):
             self.v.append((m, w["summary"]))
     cx = _Ctx()
-    check_pair(cx, c["lhs"], c["rhs"], c["arrays"], c["aoh"])
+    check_pair(cx, c["lhs"], c["rhs"], c["arrays"], c["aoh"], c.get("earlier_rhs"))
     return {"violated": bool(cx.v), "found": cx.v}
 
 
